@@ -95,6 +95,42 @@ def check_client(sel, st):
             st.violation('client-audit:status-%s-but-report-folds-to-%s' % (res.status, exp), {'sel': [list(x) for x in sel], 'opts': opts, 'status': res.status})
 
 
+# the two directions of a KEXINIT may differ: whatever the report then shows, the status is the fold of what it shows
+def asym_tasks():
+    l1 = [()] + [(c,) for c in CLASSES]
+    out = []
+    for cat in ('enc', 'mac'):
+        for s2c in l1:
+            for c2s in l1 + [('fail', 'warn'), ('clean', 'fail')]:
+                if s2c != c2s:
+                    for role in ('server', 'client'):
+                        out.append((cat, s2c, c2s, role))
+    return out
+
+
+def work_asym(chunk, st):
+    for cat, s2c, c2s, role in chunk:
+        lists = {c: names_for(c, ('clean',)) for c in CATS}
+        lists[cat] = names_for(cat, s2c)
+        kw = {('%s_c2s' % cat): names_for(cat, c2s)}
+        ref = None
+        for opts in (['-n'], ['-n', '-j'], ['-n', '-b'], ['-n', '-v', '-l', 'warn']):
+            if role == 'server':
+                res = H.audit(peer.Server(kex=lists['kex'], key=lists['key'], enc=lists['enc'], mac=lists['mac'], banner=b'SSH-2.0-OpenSSH_9.6',
+                                          host_keys=peer.standard_host_keys(lists['key'], rsa_bits=3072), **kw), opts=opts + ['--skip-rate-test'])
+            else:
+                ckw = dict(lists)
+                ckw['%s_s2c' % cat] = lists[cat]
+                ckw[cat] = names_for(cat, c2s)
+                res = H.client_audit(peer.Client(banner=b'SSH-2.0-OpenSSH_9.6', **ckw), opts=opts)
+            if ref is None:
+                ref = fold(report.TextReport(res.stdout).levels())
+            st.execution(res.world, outcome=('asym', res.status, ref), root=('asym', cat, s2c, c2s, role, tuple(opts)), nontrivial=('asym', cat, s2c, c2s, role, tuple(opts)), detail='light')
+            if res.status != ref:
+                st.violation('asymmetric-lists:status-%s-but-report-folds-to-%s' % (res.status, ref),
+                             {'cat': cat, 's2c': list(s2c), 'c2s': list(c2s), 'role': role, 'opts': opts, 'status': res.status, 'stdout_tail': res.stdout[-300:]})
+
+
 def work_client(chunk, st):
     for sel in chunk:
         check_client(sel, st)
@@ -281,6 +317,7 @@ def run(tier, seed):
     par.pmap(work_opts, optsel, stats=st)
     par.pmap(work_client, [s for s in itertools.product(l1, repeat=4)] + ([s for s in sev if sum(len(x) for x in s) <= 4][::7] if tier != 'quick' else []), stats=st)
     par.pmap(work_ssh1, [(c, a) for c in range(0, 128, 1 if tier != 'quick' else 3) for a in (0, 0x0c, 0x2c, 0x7e)], stats=st)
+    par.pmap(work_asym, asym_tasks(), stats=st)
     par.pmap(work_broken, broken_tasks(tier), stats=st)
     par.pmap(work_policy, policy_cases(), stats=st, procs=1)
     vcases = []
@@ -296,7 +333,7 @@ def run(tier, seed):
         PID, tier, seed, st, t0,
         rule='severity classes {fail, fail+warn, warn, clean, unknown} per category (representatives from the DB: %s); %s; '
              'all selections of total length <=%d x %d option sets; every fault of the menu on the initial connection(s) of archetypes A,E,E1,F,G '
-             '(truncation every %s byte) x {text,json}; policy verdict cases x {text,json}' % (
+             '(truncation every %s byte) x {text,json}; policy verdict cases x {text,json}; direction-asymmetric cipher/MAC lists (every class pair, both roles, 4 option sets)' % (
                  json.dumps(reps()), 'all four categories crossed at length <=1 plus all pairs of categories with lists of length 0..2'
                  if tier == 'quick' else 'all lists of length 0..2 in all four categories crossed', 2 if tier == 'quick' else 3,
                  len(OPTSETS), '8th' if tier == 'quick' else '1st'),
